@@ -4,6 +4,7 @@ import (
 	"encoding/binary"
 	"fmt"
 	"io"
+	"math"
 
 	"google.golang.org/protobuf/proto"
 )
@@ -50,6 +51,11 @@ func ReadMessage(buf *[]byte, r ByteReadReader, msg proto.Message) error {
 	size, err := binary.ReadUvarint(r)
 	if err != nil {
 		return err
+	}
+	// A protobuf message cannot be larger than 2GiB; a larger size header is a corrupt or hostile stream
+	// and must not be handed to make (which panics on sizes it cannot represent).
+	if size > math.MaxInt32 {
+		return fmt.Errorf("message size %d exceeds the maximum of %d bytes", size, math.MaxInt32)
 	}
 	if cap(*buf) < int(size) {
 		*buf = make([]byte, size)
